@@ -33,8 +33,8 @@ ROWS = {
  "arith_thorough": dict(acts=S("CvArith", "CvScalar"), maxnpts=5, omax=4, pts='"gen", "pos"', wts='"none", "gen", "gen2"'),
  "eq_quick": dict(acts=S("CvEq"), maxnpts=4, pts='"gen", "flat"'),
  "eq_thorough": dict(acts=S("CvEq"), maxnpts=5, degs="DegsT", wts='"none", "gen", "gen2", "const"', pts='"gen", "flat"'),
- "clean_quick": dict(acts=S("CvKnotInsert", "CvDegreeIncrease", "CvClean"), scenario="history", prep=1, depth=3, maxnpts=4, nodesize=1, props=["CleanProps"], wts='"none", "gen"', pts='"gen", "homlin"'),
- "clean_thorough": dict(acts=S("CvKnotInsert", "CvDegreeIncrease", "CvClean"), scenario="history", prep=2, depth=4, maxnpts=4, nodesize=1, props=["CleanProps"], wts='"none", "gen", "const"', pts='"gen", "homlin"'),
+ "clean_quick": dict(acts=S("CvKnotInsert", "CvDegreeIncrease", "CvClean"), scenario="history", prep=1, depth=3, maxnpts=4, nodesize=1, props=["CleanProps"], wts='"none", "gen"', pts='"gen", "homlin", "bump"'),
+ "clean_thorough": dict(acts=S("CvKnotInsert", "CvDegreeIncrease", "CvClean"), scenario="history", prep=2, depth=4, maxnpts=4, nodesize=1, props=["CleanProps"], wts='"none", "gen", "const"', pts='"gen", "homlin", "bump"'),
  "misc_quick": dict(acts=S("CvCopy", "CvFraction"), maxnpts=4),
  "deriv_quick": dict(acts=S("CvDerivate"), props=["DerivFormulaAgrees"]),
  "deriv_thorough": dict(acts=S("CvDerivate"), props=["DerivFormulaAgrees"], degs="Degs4", maxnpts=7, wts='"none", "gen", "gen2"'),
